@@ -137,7 +137,7 @@ def gate(raw):
 
 class Robust(Sub):
     name = "robust"
-    examples = {"quick": 1200, "thorough": 40000}
+    examples = {"quick": 1200, "thorough": 9600}
     shards = {"quick": 12, "thorough": 16}
     rule = RULE
 
